@@ -248,7 +248,7 @@ func commonExtras(s *pgen.Std) []*pgen.Type {
 		s.NDigest, pgen.Slice(s.NDigest), pgen.Map(pgen.B("string"), s.NDigest), s.NStrS, pgen.Slice(s.NStrS), pgen.Map(s.NStrS, s.NIntS), s.NIntS, pgen.Ptr(s.NIntS),
 		s.SM1, pgen.Ptr(s.SM1), pgen.Ptr(s.SM2), pgen.Slice(s.SM2), s.XDupC,
 		s.SPad, pgen.Slice(s.SPad), pgen.Map(pgen.B("string"), s.SPad), pgen.Ptr(s.SCn), pgen.Slice(pgen.Ptr(s.SCn)), pgen.Map(pgen.B("int"), pgen.Ptr(s.SCn)), pgen.Slice(s.SCn), pgen.Ptr(pgen.Ptr(s.SCn)),
-		s.XB, pgen.Ptr(s.XB), pgen.Slice(s.XB), s.XO, pgen.Ptr(s.XO), pgen.Slice(s.XO), pgen.Map(pgen.B("string"), pgen.Ptr(s.XO)), s.SH, pgen.Ptr(s.SH), pgen.Slice(s.SH), pgen.Array(2, s.SH), pgen.Map(pgen.B("int"), s.SH), pgen.Array(2, s.SCi),
+		s.XB, pgen.Ptr(s.XB), pgen.Slice(s.XB), s.XO, pgen.Ptr(s.XO), pgen.Slice(s.XO), pgen.Map(pgen.B("string"), pgen.Ptr(s.XO)), s.SH, pgen.Ptr(s.SH), pgen.Slice(s.SH), pgen.Array(2, s.SH), pgen.Map(pgen.B("int"), s.SH), s.SHH, pgen.Ptr(s.SHH), pgen.Slice(s.SHH), pgen.Array(2, s.SCi),
 		pgen.Ptr(s.SCv), pgen.Ptr(pgen.Ptr(s.SCv)), pgen.Ptr(pgen.Ptr(s.SCi)), pgen.Slice(s.SCv), pgen.Slice(pgen.Ptr(s.SCv)), pgen.Map(pgen.B("string"), s.SCv), pgen.Map(pgen.B("string"), s.SCi), pgen.Map(pgen.B("int"), pgen.Ptr(s.SCi)), pgen.Slice(s.SCi), pgen.Slice(pgen.Ptr(s.SCi)),
 		pgen.Map(pgen.B("string"), pgen.Array(2, pgen.Slice(pgen.B("int")))), pgen.Map(pgen.B("float64"), pgen.Ptr(pgen.B("int"))), pgen.Map(pgen.B("complex128"), pgen.B("string"))}
 }
